@@ -22,6 +22,7 @@ type recipeOut struct {
 	approve  [][]byte // governance txs that the shared proposals.json must approve
 	evidence []*bft.DoubleSignEvidence
 	orderTx  []byte // a create-order tx (its hash prefix becomes the order id once included)
+	orderTxs [][]byte // create-order txs of the two-order recipes (ids appended to world.pair in inclusion order)
 	signers  []int  // who signs this block's certificate (nil = the whole committee)
 }
 
@@ -141,6 +142,35 @@ var recipes = []recipe{
 	{"rewardSlash", "results-with-reward-and-slash", func(w *world, h uint64) recipeOut {
 		return recipeOut{txs: [][]byte{sendFee(10, 11, 999, 10000, h)}, evidence: w.doubleSignEvidence(h)}
 	}},
+	// two open sell orders, then two lock-order commands in ONE block, then two close-order commands in one block:
+	// the certificate results of those blocks carry LISTS (lock / close orders) that the proposer derives from the
+	// block's transactions and the order book (controller.HandleSwaps -> fsm.ProcessRootChainOrderBook) and every
+	// replica must derive identically; the next block's begin-block applies them (HandleCommitteeSwaps)
+	{"createTwoOrders", "create-two-orders", func(w *world, h uint64) recipeOut {
+		t1 := mustTx(fsm.NewCreateOrderTx(env.BLS(12), 5100, 7100, env.ChainID, nil, env.Addr(env.BLS(12)).Bytes(), env.NetworkID, env.ChainID, 10002, h, ""))
+		t2 := mustTx(fsm.NewCreateOrderTx(env.BLS(13), 5200, 7200, env.ChainID, nil, env.Addr(env.BLS(13)).Bytes(), env.NetworkID, env.ChainID, 10001, h, ""))
+		return recipeOut{txs: [][]byte{t1, t2}, orderTxs: [][]byte{t1, t2}}
+	}},
+	{"lockTwoOrders", "two-lock-orders-in-one-block", func(w *world, h uint64) recipeOut {
+		var o recipeOut
+		for i, id := range w.pairIDs() {
+			oid, _ := lib.StringToBytes(id)
+			buyer := env.BLS(10 + i)
+			o.txs = append(o.txs, mustTx(fsm.NewLockOrderTx(buyer, lib.LockOrder{OrderId: oid, ChainId: env.ChainID, BuyerReceiveAddress: env.Addr(buyer).Bytes(), BuyerSendAddress: env.Addr(buyer).Bytes()},
+				env.NetworkID, env.ChainID, 20002-uint64(i), h)))
+		}
+		return o
+	}},
+	{"closeTwoOrders", "two-close-orders-in-one-block", func(w *world, h uint64) recipeOut {
+		var o recipeOut
+		for i, id := range w.pairIDs() {
+			oid, _ := lib.StringToBytes(id)
+			buyer, seller := env.BLS(10+i), env.BLS(12+i)
+			o.txs = append(o.txs, mustTx(fsm.NewCloseOrderTx(buyer, lib.CloseOrder{OrderId: oid, ChainId: env.ChainID, CloseOrder: true}, env.Addr(seller), 7100+100*uint64(i),
+				env.NetworkID, env.ChainID, 20002-uint64(i), h)))
+		}
+		return o
+	}},
 }
 
 func recipeByName(n string) int {
@@ -158,6 +188,15 @@ type world struct {
 	g          *fsm.GenesisState
 	A, B, R, S *env.Node
 	lastOrder  string // hex order id of the last create-order that made it into a block
+	pair       []string // hex ids of the orders created by createTwoOrders, in inclusion order
+}
+
+// pairIDs: the two orders of createTwoOrders (unknown ids before they exist: the commands then name no order)
+func (w *world) pairIDs() []string {
+	if len(w.pair) >= 2 {
+		return w.pair[len(w.pair)-2:]
+	}
+	return []string{strings.Repeat("00", 20), strings.Repeat("11", 20)}
 }
 
 func (w *world) nodes() []*env.Node { return []*env.Node{w.A, w.B, w.R, w.S} }
